@@ -319,6 +319,7 @@ def run(res):
         allidx = list(range(m))
         # --- confidence intervals: levels and width
         qs = draw_levels(rng)
+        qs_ci = list(qs)
         with np.errstate(all='ignore'):
             got = gam.confidence_intervals(Xq, quantiles=qs)
         compare(res, ref, got, allidx, False, True, qs, 'confidence_intervals', d, Xq, goals, meta, link, 'Gen_flags_confidence_intervals', allidx, coq_budget)
@@ -365,6 +366,27 @@ def run(res):
                                            observed=np.asarray(pd).tolist(), expected=lp_t.tolist()))
             compare(res, ref, iv, idxs, False, False, qs, 'partial_dependence', dict(d, term=t), Xq, goals, meta, link, 'Gen_flags_partial_dependence', idxs, coq_budget)
         monotone_checks(res, gam, ref, Xq, d, rng)
+        # the same object, refitted on fewer rows after it has answered interval queries: the bounds must follow the CURRENT n - edof / covariance
+        if i % 2 == 0 and scn['n'] >= 6:
+            k = max(3, (2 * scn['n']) // 3)
+            try:
+                with warnings.catch_warnings(), np.errstate(all='ignore'):
+                    warnings.simplefilter('ignore')
+                    if scn['w'] is None:
+                        gam.fit(scn['X'][:k].copy(), scn['y'][:k].copy())
+                    else:
+                        gam.fit(scn['X'][:k].copy(), scn['y'][:k].copy(), weights=scn['w'][:k].copy())
+                ref2 = Ref(gam, Xq)
+                ok2 = np.isfinite(gam.coef_).all() and np.isfinite(gam.statistics_['cov']).all() and (ref2.known or ref2.n - ref2.edof > 1e-6)
+            except ValueError:
+                ok2 = False
+            if ok2:
+                res.count('refit of a queried model, intervals compared again')
+                d2 = dict(d, history='fit(all rows); interval queries; fit(first %d rows); confidence_intervals with the earlier levels' % k)
+                with np.errstate(all='ignore'):
+                    got = gam.confidence_intervals(Xq, quantiles=qs_ci)
+                compare(res, ref2, got, list(range(len(ref2.coef))), False, True, qs_ci, 'confidence_intervals', d2, Xq, [], [], link, 'Gen_flags_confidence_intervals',
+                        list(range(len(ref2.coef))), [0])
         if i < 12 or res.tier != 'quick':
             rejection_checks(res, gam, Xq, d)
         # observation (not part of the real-number model): a NaN level passes the guard `q >= 1 or q <= 0`
